@@ -120,6 +120,20 @@ func bindPlaceholders(g *Gen, docs map[string]*Node) {
 		keys = append(keys, k)
 	}
 	sort.Strings(keys)
+	// name relations that matter to string-prefix logic: sometimes the holder definition's name extends the target's name
+	// (node / nodeList, pet / pets)
+	if set["N_1"] && g.r.Intn(3) == 0 {
+		if _, bound := g.Names.ToConcrete["N_1"]; !bound {
+			g.Names.Bind("N_1", g.concreteName(g.pickClass()))
+		}
+		base := g.Names.ToConcrete["N_1"]
+		for k, suffix := range map[string]string{"N_8": "List", "N_16": "s", "N_7": "Item"} {
+			if _, bound := g.Names.ToConcrete[k]; set[k] && !bound && !g.usedConcrete[base+suffix] && !reservedWords[base+suffix] && g.r.Intn(2) == 0 {
+				g.usedConcrete[base+suffix] = true
+				g.Names.Bind(k, base+suffix)
+			}
+		}
+	}
 	// C_i is the case variant of N_i: bind after the N_ names
 	sort.SliceStable(keys, func(i, j int) bool { return !strings.HasPrefix(keys[i], "C_") && strings.HasPrefix(keys[j], "C_") })
 	for _, k := range keys {
